@@ -17,7 +17,7 @@
    removed (C18_way_polygon_any_tag_list), and an Example shows that order does matter then.
    A tag with the empty value counts as absent (Find returns "" for "not found"). *)
 From Coq Require Import String List Bool Arith ZArith Permutation.
-From Verif Require Import C18.Model C18.Spec C18.Equiv C18.StrOrder C18.Proofs C18.GenOk C18.Main.
+From Verif Require Import C18.Model C18.Spec C18.Equiv C18.StrOrder C18.Proofs C18.GenOk C18.Main C18.Tags.
 From VerifGen Require Import GenPolygon.
 Import ListNotations.
 Open Scope string_scope.
@@ -218,6 +218,55 @@ Theorem C18_relation_polygon_any_tag_list : forall ts : tags,
 Proof.
   intros ts. unfold relation_polygon. rewrite orb_true_iff, !String.eqb_eq. reflexivity.
 Qed.
+
+(* ---- 6. the other helpers of tag.go (used by C17): FindTag, HasTag, Map, AnyInteresting ---- *)
+
+Theorem C18_find_is_find_tag_value : forall (k : string) (ts : tags),
+  find k ts = match find_tag k ts with Some t => snd t | None => "" end.
+Proof. exact find_find_tag. Qed.
+
+Theorem C18_has_tag_iff : forall (k : string) (ts : tags),
+  has_tag k ts = true <-> In k (keys ts).
+Proof. exact has_tag_iff. Qed.
+
+Theorem C18_find_tag_on_tag_set : forall (k v : string) (ts : tags),
+  NoDup (keys ts) -> (In (k, v) ts <-> find_tag k ts = Some (k, v)).
+Proof. exact find_tag_in. Qed.
+Print Assumptions C18_find_tag_on_tag_set.
+
+(* Map() keeps the LAST tag of a key ... *)
+Theorem C18_map_is_last_match : forall (ts : tags) (k : string),
+  tags_map ts k = match find_tag k (rev ts) with Some t => Some (snd t) | None => None end.
+Proof. exact tags_map_last. Qed.
+Print Assumptions C18_map_is_last_match.
+
+(* ... and on a tag set it is the set, and agrees with Find *)
+Theorem C18_map_on_tag_set : forall (ts : tags) (k v : string),
+  NoDup (keys ts) -> (tags_map ts k = Some v <-> In (k, v) ts).
+Proof. exact tags_map_set. Qed.
+Print Assumptions C18_map_on_tag_set.
+
+Theorem C18_map_agrees_with_find : forall (ts : tags) (k : string),
+  NoDup (keys ts) -> find k ts = match tags_map ts k with Some v => v | None => "" end.
+Proof. exact tags_map_find. Qed.
+
+Theorem C18_any_interesting_iff : forall (U : list string) (ts : tags),
+  any_interesting U ts = true <-> exists t, In t ts /\ ~ In (fst t) U.
+Proof. exact any_interesting_iff. Qed.
+Print Assumptions C18_any_interesting_iff.
+
+Theorem C18_any_interesting_order_irrelevant : forall (U : list string) (ts ts' : tags),
+  Permutation ts ts' -> any_interesting U ts = any_interesting U ts'.
+Proof. exact any_interesting_perm. Qed.
+
+Example ex_map_last_find_first :
+  let ts := [("a", "1"); ("b", "2"); ("a", "3")] in
+  find "a" ts = "1" /\ tags_map ts "a" = Some "3" /\ has_tag "c" ts = false.
+Proof. vm_compute. repeat split. Qed.
+Example ex_any_interesting :
+  any_interesting_now [("source", "x"); ("created_by", "y")] = false /\
+  any_interesting_now [("source", "x"); ("building", "yes")] = true.
+Proof. vm_compute. split; reflexivity. Qed.
 
 (* ---- non-vacuity and sharpness ---- *)
 
